@@ -13,6 +13,7 @@ import Driver.C04
 import Driver.C05
 import Driver.C19
 import Driver.C20
+import Driver.C06
 open Driver
 
 /-- dispatch one request line; returns the output lines -/
@@ -38,6 +39,7 @@ def dispatch (line : String) : IO (List String) := do
   | "c05" :: args => cmdC05 args
   | "c19" :: args => cmdC19 args
   | "c20" :: args => cmdC20 args
+  | "c06" :: args => cmdC06 args
   | _ => return ["error unknown-command"]
 
 partial def loop (hin : IO.FS.Stream) (hout : IO.FS.Stream) : IO Unit := do
